@@ -6,10 +6,12 @@ import (
 	"fmt"
 	"strings"
 	"sync"
+	"sync/atomic"
 	"time"
 
 	"github.com/pion/ice/v4"
 	"github.com/pion/webrtc/v4"
+	"github.com/pion/webrtc/v4/internal/verifhook"
 )
 
 // C25: ICE candidates through ToJSON -> AddICECandidate and back.
@@ -169,7 +171,10 @@ func (c c25Cand) offer() string {
 	return b.String()
 }
 
-var c25Once sync.Once
+var (
+	c25Once     sync.Once
+	c25Forwards atomic.Int64 // times AddICECandidate reached the hand-over to the ICE transport
+)
 
 func c25Web(c webrtc.ICECandidate) V {
 	return VL{VS(c.Foundation), VZ(c.Priority), VS(c.Address), VZ(int64(c.Protocol)), VZ(c.Port), VZ(int64(c.Typ)),
@@ -208,7 +213,14 @@ func c25UfragOf(i ice.Candidate) (string, bool) {
 }
 
 func c25RunCand(in c25Cand) (V, Verdict) {
-	c25Once.Do(func() { signalOnly(true) })
+	c25Once.Do(func() {
+		signalOnly(true)
+		verifhook.Install(func(name string) {
+			if name == "pc.addicecandidate.forward" {
+				c25Forwards.Add(1)
+			}
+		})
+	})
 	i0, err := ice.UnmarshalCandidate(in.line())
 	if err != nil {
 		return VS("unparseable"), Pass("generator-unparseable", false)
@@ -226,7 +238,9 @@ func c25RunCand(in c25Cand) (V, Verdict) {
 		panic(fmt.Sprintf("c25: remote offer rejected: %v\n%s", err, in.offer()))
 	}
 	init := c0.ToJSON()
+	before := c25Forwards.Load()
 	addErr := pc.AddICECandidate(init)
+	forwarded := c25Forwards.Load() > before // this suite runs its cases one at a time
 
 	// what the signalled string parses back to (the steps AddICECandidate itself takes)
 	var back V = VL{VS("err"), VS("unmarshal")}
@@ -239,37 +253,29 @@ func c25RunCand(in c25Cand) (V, Verdict) {
 		}
 	}
 
-	// did it reach the ICE agent?  The agent adds asynchronously: a sentinel
-	// added afterwards bounds the wait.  The agent itself ignores tcp-active and
-	// (with mDNS off) .local candidates, so for those nothing can be observed.
+	// a forwarded candidate must turn up in the ICE agent (which adds on its own
+	// goroutine: poll).  The agent itself ignores tcp-active and, with mDNS off,
+	// .local candidates.
 	observable := !(c0.TCPType == "active" || (c0.Typ == webrtc.ICECandidateTypeHost && strings.HasSuffix(c0.Address, ".local")))
 	reached := false
 	want := c0 // what the agent should hold: the candidate as it parses back
 	if haveBack {
 		want = c1
 	}
-	if addErr == nil && observable {
-		sentinel := webrtc.ICECandidateInit{Candidate: "candidate:sentinel 1 udp 1 198.51.100.77 7777 typ host"}
-		if serr := pc.AddICECandidate(sentinel); serr != nil {
-			panic(serr)
-		}
-		deadline := time.Now().Add(3 * time.Second)
-		for sawSentinel := false; time.Now().Before(deadline) && !(sawSentinel && reached); {
+	if addErr == nil && forwarded && observable {
+		for deadline := time.Now().Add(10 * time.Second); time.Now().Before(deadline) && !reached; {
 			held, herr := pc.VerifRemoteICECandidates()
 			if herr != nil {
 				panic(herr)
 			}
 			for _, h := range held {
-				if h.Foundation == "sentinel" {
-					if !sawSentinel {
-						sawSentinel = true
-						deadline = time.Now().Add(150 * time.Millisecond)
-					}
-				} else if c25FieldDiff(h, want) == "" && h.VerifExtensions() == want.VerifExtensions() {
+				if c25FieldDiff(h, want) == "" && h.VerifExtensions() == want.VerifExtensions() {
 					reached = true
 				}
 			}
-			time.Sleep(100 * time.Microsecond)
+			if !reached {
+				time.Sleep(200 * time.Microsecond)
+			}
 		}
 	}
 	candUfrag, hasUfrag := c25UfragOf(i0)
@@ -278,13 +284,13 @@ func c25RunCand(in c25Cand) (V, Verdict) {
 	switch {
 	case addErr != nil:
 		outcome = 3
-	case observable && !reached:
+	case !forwarded:
 		outcome = 1
 	}
 	obs := VL{c25Web(c0), back, VZ(int64(outcome))}
 
 	// ---- direct oracle ----
-	class := fmt.Sprintf("%s/%s/x%d/ufrag=%s", in.Typ, in.Net, min(len(in.Exts), 3),
+	class := fmt.Sprintf("%s/ufrag=%s", in.Typ,
 		map[bool]string{true: "mismatch", false: map[bool]string{true: "match", false: "none"}[hasUfrag]}[mismatch])
 	if !observable {
 		class += "/agent-ignores"
@@ -307,13 +313,14 @@ func c25RunCand(in c25Cand) (V, Verdict) {
 		}
 		return obs, Fail(sig, fmt.Sprintf("extensions %q came back as %q (signalled %q)", c0.VerifExtensions(), c1.VerifExtensions(), init.Candidate))
 	}
-	if observable {
-		if mismatch && reached {
-			return obs, Fail("cand-ufrag-mismatch-not-dropped", fmt.Sprintf("ufrag %q, description has %q, yet the agent got it", candUfrag, in.Ufrag))
-		}
-		if !mismatch && !reached {
-			return obs, Fail("cand-ufrag-match-dropped", fmt.Sprintf("%q never reached the agent (ufrag %q/%v, description %q)", init.Candidate, candUfrag, hasUfrag, in.Ufrag))
-		}
+	if mismatch && forwarded {
+		return obs, Fail("cand-ufrag-mismatch-not-dropped", fmt.Sprintf("ufrag %q, description has %q, yet the candidate was handed to the ICE transport", candUfrag, in.Ufrag))
+	}
+	if !mismatch && !forwarded {
+		return obs, Fail("cand-ufrag-match-dropped", fmt.Sprintf("%q was dropped (ufrag %q/%v, description %q)", init.Candidate, candUfrag, hasUfrag, in.Ufrag))
+	}
+	if forwarded && observable && !reached {
+		return obs, Fail("cand-forwarded-but-agent-missing", fmt.Sprintf("%q was forwarded but the ICE agent does not hold %+v", init.Candidate, want))
 	}
 	return obs, Pass(class, true)
 }
@@ -322,11 +329,6 @@ func c25CoqCand(in c25Cand) string {
 	i0, err := ice.UnmarshalCandidate(in.line())
 	if err != nil {
 		return ""
-	}
-	if u, ok := c25UfragOf(i0); ok && u != in.Ufrag {
-		if i0.TCPType() == ice.TCPTypeActive || (i0.Type() == ice.CandidateTypeHost && strings.HasSuffix(i0.Address(), ".local")) {
-			return "" // the agent ignores these anyway: dropped/forwarded cannot be told apart
-		}
 	}
 	typ := map[ice.CandidateType]int{ice.CandidateTypeHost: 1, ice.CandidateTypeServerReflexive: 2,
 		ice.CandidateTypePeerReflexive: 3, ice.CandidateTypeRelay: 4}[i0.Type()]
@@ -444,7 +446,7 @@ func init() {
 	Register(Spec[[]c25Ext]{
 		ID: "C25", Suite: "ext", CoqImports: []string{"Check.C25"},
 		CoqType: "list (string * string)", CoqRun: "Check.C25.run_ext",
-		Quick: 200, Thorough: 20000, Parallel: 8,
+		Quick: 200, Thorough: 3000, Parallel: 8,
 		Corpus: func() [][]c25Ext {
 			return [][]c25Ext{
 				{{"generation", "0"}, {"ufrag", "abc"}, {"network-id", "3"}, {"network-cost", "10"}},
@@ -506,7 +508,7 @@ func init() {
 		ID: "C25", Suite: "cand", CoqImports: []string{"Check.C25"},
 		CoqType: "(Z * Z * Z) * (string * string) * (Z * Z * Z) * option (string * Z) * list (string * string) * (option string * list (option string))",
 		CoqRun:  "Check.C25.run_cand",
-		Quick:   480, Thorough: 30000, Parallel: 8,
+		Quick:   480, Thorough: 4000, Parallel: 1,
 		Corpus: func() []c25Cand {
 			return []c25Cand{
 				{Typ: "host", Net: "udp", Foundation: "4234997325", Component: 1, Priority: 2113667327, Address: "192.0.2.1", Port: 54400,
